@@ -73,13 +73,14 @@ def transcript(xml: Path, scratch: Path, tag: str, config) -> list:
         return T
     lexicon, expand = config
     import warnings
-    with warnings.catch_warnings():
-        warnings.simplefilter('ignore')
+    with warnings.catch_warnings(record=True) as caught:
+        warnings.simplefilter('always')
         w = wn.Wordnet(lexicon, expand=expand)
     if True:
         spec = str(config)
         put(['lexicons', [lx.specifier() for lx in w.lexicons()],
-             [lx.specifier() for lx in w.expanded_lexicons()]])
+             [lx.specifier() for lx in w.expanded_lexicons()],
+             [str(c.message) for c in caught], w.describe()])
         put(['words', _ids(w.words()), 'senses', _ids(w.senses()), 'synsets', _ids(w.synsets())])
         put(['ilis', [[i.id, i.status] for i in w.ilis()]])
         for wd in w.words():
